@@ -325,3 +325,36 @@ mut('c12-twin-setattr-direct-pop', ['C12'], 'plain branch pops from both registr
                 self._parameters.pop(__name, None)
                 self._submodules.pop(__name, None)
 """)], expect='silent')
+
+# ------------------------------------------------------------------------------------------------ C15
+mut('c15-variance-as-std (revert of fix)', ['C15'], 'xavier_normal_ hands std**2 to normal_', [(IN, "    std = gain * math.sqrt(2.0 / float(fan_in + fan_out))\n    return normal_(tensor, 0, std)", "    std = gain * math.sqrt(2.0 / float(fan_in + fan_out))\n    return normal_(tensor, 0, std**2)")], rules=['C15.SCALE'])
+mut('c15-kaiming-sqrt6', ['C15'], 'kaiming_uniform_ bound uses sqrt(6/fan)', [(IN, "std = gain * math.sqrt(3.0 / float(fan[mode]))", "std = gain * math.sqrt(6.0 / float(fan[mode]))")], rules=['C15.SCALE'])
+mut('c15-xavier-fan-in-only', ['C15'], 'xavier_uniform_ uses 2*fan_in instead of fan_in+fan_out', [(IN, "a = gain * math.sqrt(6.0 / float(fan_in + fan_out))", "a = gain * math.sqrt(6.0 / float(fan_in + fan_in))")], rules=['C15.SCALE'])
+mut('c15-asymmetric-bounds', ['C15'], 'xavier_uniform_ samples from U(0, a)', [(IN, "return uniform_(tensor, -a, a)", "return uniform_(tensor, 0, a)")], rules=['C15.SCALE'])
+mut('c15-normal-roles-swapped', ['C15'], 'normal_ passes (std, mean) to np.random.normal', [(IN, "np.random.normal(mean, std, tensor.shape)", "np.random.normal(std, mean, tensor.shape)")], rules=['C15.SAMPLER'])
+mut('c15-fan-swapped', ['C15'], 'fan_in computed from shape[0]', [(IN, "    num_input_fmaps = tensor.shape[1]\n    num_output_fmaps = tensor.shape[0]", "    num_input_fmaps = tensor.shape[0]\n    num_output_fmaps = tensor.shape[1]")], rules=['C15.FAN'])
+mut('c15-fan-no-receptive-field', ['C15'], 'receptive field of conv kernels ignored in fan_out', [(IN, "fan_out = num_output_fmaps * receptive_field_size", "fan_out = num_output_fmaps")], rules=['C15.FAN'])
+mut('c15-gain-tanh', ['C15'], 'tanh gain 5/4', [(IN, "return 5.0 / 3", "return 5.0 / 4")], rules=['C15.GAIN'])
+mut('c15-gain-leaky-no-square', ['C15'], 'leaky_relu gain without squaring the slope', [(IN, "math.sqrt(2.0 / (1 + negative_slope ** 2))", "math.sqrt(2.0 / (1 + negative_slope))")], rules=['C15.GAIN'])
+mut('c15-kaiming-mode-swapped', ['C15'], 'kaiming_normal_ maps fan_in to index 1', [(IN, "    fans_str = ['fan_in', 'fan_out']\n    if mode in fans_str:\n        mode = fans_str.index(mode)\n    else:\n        raise ValueError(f\"invalid {mode=} for kaiming normal\")", "    fans_str = ['fan_out', 'fan_in']\n    if mode in fans_str:\n        mode = fans_str.index(mode)\n    else:\n        raise ValueError(f\"invalid {mode=} for kaiming normal\")")], rules=['C15.GAIN'])
+mut('c15-filler-drops-dtype', ['C15'], 'zeros_ replaces data by a float64 array', [(IN, "tensor.data = np.zeros(tensor.shape).astype(tensor.dtype)", "tensor.data = np.zeros(tensor.shape)")], rules=['C15.OBJECT'])
+mut('c15-filler-new-tensor', ['C15'], 'constant_ returns a new Tensor instead of filling its argument', [(IN, "    tensor.data = np.full(tensor.shape, val).astype(tensor.dtype)\n    return tensor", "    return Tensor(np.full(tensor.shape, val).astype(tensor.dtype))")], rules=['C15.OBJECT'])
+mut('c15-filler-clears-flag', ['C15'], 'uniform_ also resets requires_grad', [(IN, "    tensor.data = np.random.uniform(a, b, tensor.shape).astype(tensor.dtype)\n    return tensor\n    return np", "    tensor.data = np.random.uniform(a, b, tensor.shape).astype(tensor.dtype)\n    tensor._requires_grad = False\n    return tensor\n    return np")], rules=['C15.OBJECT'])
+mut('c15-linear-bias-bound', ['C15'], 'Linear bias initialised from U(-1/fan_in, 1/fan_in)', [(LY, "            init.uniform_(self.bias, -std, std)", "            init.uniform_(self.bias, -std*std, std*std)")], rules=['C15.SCALE'])
+mut('c15-twin-sqrt-split', ['C15'], 'xavier_uniform_ bound written as gain*sqrt(6)/sqrt(fan_in+fan_out)', [(IN, "a = gain * math.sqrt(6.0 / float(fan_in + fan_out))", "a = gain * math.sqrt(6.0) / math.sqrt(fan_in + fan_out)")], expect='silent')
+mut('c15-twin-kaiming-pow', ['C15'], 'kaiming_normal_ std written as gain * fan**-0.5', [(IN, "std = gain * (1 / math.sqrt(float(fan[mode])))", "std = gain * float(fan[mode]) ** -0.5")], expect='silent')
+
+# ------------------------------------------------------------------------------------------------ C18
+mut('c18-transform-unguarded (revert of fix)', ['C18'], 'DataLoader calls transform=None', [(DT, "        if self.transform is None:\n            return X_batch, y_batch\n        \n", "")], rules=['C18.OPTIONAL-CALL'])
+mut('c18-split-off-by-one', ['C18'], 'train/val part starts at split+1 (one sample lost)', [(DT, "train_val_indices, test_indices = indices[split:], indices[:split]", "train_val_indices, test_indices = indices[split+1:], indices[:split]")], rules=['C18.PARTITION'])
+mut('c18-split-ceil', ['C18'], 'test size rounded up', [(DT, "split = int(np.floor(test_split * data_size))", "split = int(np.ceil(test_split * data_size))")], rules=['C18.PARTITION'], accept_incomplete=True)
+mut('c18-val-from-total', ['C18'], 'validation size computed from the whole dataset', [(DT, "val_split = int(np.floor(val_split * len(train_val_indices)))", "val_split = int(np.floor(val_split * data_size))")], rules=['C18.PARTITION'])
+mut('c18-shuffle-after-slice', ['C18'], 'indices shuffled after the test part was cut (and always)', [(DT, "        if shuffle:\n            np.random.shuffle(indices)\n        train_val_indices, test_indices = indices[split:], indices[:split]", "        train_val_indices, test_indices = indices[split:], indices[:split]\n        np.random.shuffle(train_val_indices)")], rules=['C18.PARTITION'])
+mut('c18-labels-from-other-part', ['C18'], 'y_test gathered through the train indices', [(DT, "y_test = np.array([ y[ind] for ind in test_indices ], dtype=np.float32)", "y_test = np.array([ y[ind] for ind in train_indices[:len(test_indices)] ], dtype=np.float32)")], rules=['C18.PAIRING'])
+mut('c18-batch-misaligned', ['C18'], 'label batch starts one sample later', [(DT, "y_batch = self.y[start:end]", "y_batch = self.y[start+1:end+1]")], rules=['C18.BATCH'])
+mut('c18-batch-end', ['C18'], 'batch end computed as (idx+1)*batch_size - 1', [(DT, "end = (idx*self.batach_size) + self.batach_size", "end = (idx*self.batach_size) + self.batach_size - 1")], rules=['C18.BATCH'])
+mut('c18-len-ceil', ['C18'], '__len__ counts the incomplete last batch', [(DT, "return len(self.y) // self.batach_size", "return (len(self.y) + self.batach_size - 1) // self.batach_size")], rules=['C18.BATCH'])
+mut('c18-iter-no-reset', ['C18'], '__iter__ does not restart', [(DT, "    def __iter__(self):\n        self.step = 0\n        return self", "    def __iter__(self):\n        return self")], rules=['C18.BATCH'])
+mut('c18-next-le', ['C18'], '__next__ yields one batch past the end', [(DT, "if self.step < self.__len__():", "if self.step <= self.__len__():")], rules=['C18.BATCH'])
+mut('c18-onehot-unsorted', ['C18'], 'label order taken from first occurrence', [(DT, "uniques = list(np.unique(y))", "uniques = list(dict.fromkeys(list(y)))")], rules=['C18.ONEHOT'])
+mut('c18-twin-end-from-start', ['C18'], 'end written as start + batch_size', [(DT, "end = (idx*self.batach_size) + self.batach_size", "end = start + self.batach_size")], expect='silent')
